@@ -1,6 +1,7 @@
 //! Correspondence harness: runs the real strand library in-process on generated inputs,
 //! writes one request per line (ops.txt) with the implementation's answer (impl.txt),
 //! and evaluates each property's own predicate on the implementation (props.txt).
+mod alloc;
 mod core;
 mod ctxs;
 mod env;
@@ -19,6 +20,9 @@ mod p_misc;
 mod p_sigma;
 mod p_wire;
 mod val;
+
+#[global_allocator]
+static GLOBAL: alloc::Counting = alloc::Counting;
 
 use crate::core::*;
 use crate::ctxs::*;
@@ -97,6 +101,9 @@ fn main() {
     std::fs::create_dir_all(&outdir).unwrap();
     std::panic::set_hook(Box::new(|_| {}));
     let mut h = Harness::new(&prop, tier, seed);
+    if matches!(prop.as_str(), "C11" | "C12" | "C13") {
+        h.trace_path = Some(outdir.join("current_case.txt"));
+    }
 
     // C20 (signature front-ends) has no group context: only the SIG stream runs
     if prop != "C20" {
